@@ -92,3 +92,14 @@ Lemma wrap_u_as_N w z : 0 <= w -> wrap_u w z = Z.of_N (Z.to_N (z mod 2 ^ w)).
 Proof.
   intros Hw. unfold wrap_u. rewrite Z2N.id; [reflexivity|]. apply Z.mod_pos_bound. apply Z.pow_pos_nonneg; lia.
 Qed.
+
+(* ---- results of translated functions that contain panic(...) statements *)
+Inductive gores (A : Type) : Type := GoRet (a : A) | GoPanic.
+Arguments GoRet {A} a. Arguments GoPanic {A}.
+
+(* ---- reading an indexable (slice field) that this call has already written: the last write to i wins,
+   otherwise the value the slice had on entry *)
+Definition read_buf (ws : list (Z * Z)) (base : Z -> Z) (i : Z) : Z :=
+  fold_left (fun acc w => if fst w =? i then snd w else acc) ws (base i).
+Lemma zn_lxor a b : Z.lxor (Z.of_N a) (Z.of_N b) = Z.of_N (N.lxor a b).
+Proof. destruct a, b; reflexivity. Qed.
